@@ -25,6 +25,7 @@ import (
 type c19Args struct {
 	pw, salt       []byte
 	rounds, keyLen int
+	mem            int // memory layout class of password and salt
 }
 
 func (a c19Args) String() string {
@@ -37,8 +38,12 @@ func (a c19Args) String() string {
 func c19Check(a c19Args) error {
 	var out []byte
 	var err error
-	if pan := noPanic(func() { out, err = ssh.VerifBcryptPBKDF(a.pw, a.salt, a.rounds, a.keyLen) }); pan != nil {
+	lay := placeInputs(a.mem, a.pw, a.salt)
+	if pan := noPanic(func() { out, err = ssh.VerifBcryptPBKDF(lay.placed[0], lay.placed[1], a.rounds, a.keyLen) }); pan != nil {
 		return fmt.Errorf("%v: %v", a, pan)
+	}
+	if merr := lay.check(); merr != nil {
+		return fmt.Errorf("%v: %v", a, merr)
 	}
 	invalid := len(a.pw) == 0 || len(a.salt) == 0 || len(a.salt) > 1<<20 || a.rounds < 1 || a.keyLen > 1024
 	if invalid {
@@ -212,6 +217,7 @@ func TestC19(t *testing.T) {
 		case "two":
 			a.pw, a.rounds = nil, 0
 		}
+		a.mem = drawMem(rt)
 		if err := c19Check(a); err != nil {
 			if strings.HasPrefix(err.Error(), "harness:") {
 				inconclusive(c, rt, "%v", err)
@@ -219,7 +225,7 @@ func TestC19(t *testing.T) {
 			rt.Fatalf("VF-VIOLATION: property=C19 %v", err)
 		}
 		blocks := (a.keyLen + 31) / 32
-		classes := []string{"keyLen=" + gen.LenClass(a.keyLen, 32), fmt.Sprintf("rounds=%s", map[bool]string{true: "1", false: ">1"}[a.rounds == 1])}
+		classes := []string{"mem=" + memClasses[a.mem], "keyLen=" + gen.LenClass(a.keyLen, 32), fmt.Sprintf("rounds=%s", map[bool]string{true: "1", false: ">1"}[a.rounds == 1])}
 		if invalidKind != "" {
 			classes = append(classes, "invalid:"+invalidKind)
 		} else {
@@ -327,7 +333,7 @@ func TestC19(t *testing.T) {
 	idx, n := 0, 0
 	if ev.Mine(0) {
 		big := detBytes("c19.bigsalt", 0, 1<<20+1)
-		for _, a := range []c19Args{{[]byte("pw"), big[:1<<20], 1, 32}, {[]byte("pw"), big, 1, 32}, {[]byte("pw"), big[:1<<20-1], 2, 33}} {
+		for _, a := range []c19Args{{[]byte("pw"), big[:1<<20], 1, 32, 0}, {[]byte("pw"), big, 1, 32, 2}, {[]byte("pw"), big[:1<<20-1], 2, 33, 3}} {
 			if err := c19Check(a); err != nil {
 				fatal(err)
 			}
@@ -337,7 +343,7 @@ func TestC19(t *testing.T) {
 	}
 	if ev.Mine(1) {
 		for _, kl := range []int{1023, 1024, 1025} {
-			a := c19Args{[]byte("password"), []byte("salt"), 1, kl}
+			a := c19Args{[]byte("password"), []byte("salt"), 1, kl, kl}
 			if err := c19Check(a); err != nil {
 				fatal(err)
 			}
@@ -354,7 +360,7 @@ func TestC19(t *testing.T) {
 			if !ev.Mine(idx) {
 				continue
 			}
-			a := c19Args{detBytes("c19.pw", idx, 1+idx%40), detBytes("c19.salt", idx, 1+idx%33), r, kl}
+			a := c19Args{detBytes("c19.pw", idx, 1+idx%40), detBytes("c19.salt", idx, 1+idx%33), r, kl, idx}
 			if err := c19Check(a); err != nil {
 				fatal(err)
 			}
@@ -374,7 +380,7 @@ func TestC19(t *testing.T) {
 		if !ev.Mine(idx) {
 			continue
 		}
-		a := c19Args{detBytes("c19.pw", idx, 8), detBytes("c19.salt", idx, 16), r, 32}
+		a := c19Args{detBytes("c19.pw", idx, 8), detBytes("c19.salt", idx, 16), r, 32, idx}
 		if err := c19Check(a); err != nil {
 			fatal(err)
 		}
